@@ -3,7 +3,9 @@
 package props
 
 import (
+	"fmt"
 	"math"
+	"math/rand/v2"
 	"sort"
 
 	"github.com/creachadair/mds/stree"
@@ -261,4 +263,90 @@ func rebuildSizes(small, maxPow int) []int {
 		}
 	}
 	return out
+}
+
+// cloneWorkers: a prototype tree is cloned once per goroutine and every
+// goroutine then works on its own clone only (as the documentation allows).
+// Each goroutine checks its own tree against its own reference: results of
+// Add/Replace/Remove, contents, and (checkDepth) the scapegoat depth bound.
+// Returns the first problem.
+func cloneWorkers(beta int, seed uint64, nInit int, checkDepth bool, step func()) string {
+	cmp := cmpElem
+	if seed%3 == 0 {
+		cmp = cmpElemWide
+	}
+	proto := stree.New(beta, cmp)
+	base := map[int]bool{}
+	pr := rand.New(rand.NewPCG(seed, 99))
+	for i := 0; i < nInit; i++ {
+		k := pr.IntN(4 * (nInit + 1))
+		if proto.Add(Elem{Key: k, Tag: i + 1}) {
+			base[k] = true
+		}
+	}
+	return concurrently(8, seed, func(g int, r *rand.Rand) string {
+		t := proto.Clone()
+		keys := make(map[int]bool, len(base))
+		for k := range base {
+			keys[k] = true
+		}
+		P := len(keys)
+		span := 200 + 40*g
+		// goroutines grow to different sizes, so that their depth limits differ
+		target := []int{20, 60, 200, 700, 2000, 50, 400, 1200}[g]
+		for i := 0; i < 1500; i++ {
+			k := r.IntN(span + 4*target)
+			if g%2 == 1 {
+				k = i // sorted inserts: the adversarial order
+			}
+			var got, want bool
+			switch {
+			case len(keys) < target || r.IntN(3) > 0:
+				got, want = t.Add(Elem{Key: k, Tag: i}), !keys[k]
+				keys[k] = true
+			default:
+				got, want = t.Remove(Elem{Key: k}), keys[k]
+				delete(keys, k)
+			}
+			if got != want {
+				return fmt.Sprintf("goroutine %d (own clone): operation on key %d returned %v, its own reference says %v", g, k, got, want)
+			}
+			if len(keys) == 0 {
+				P = 0
+			} else if len(keys) > P {
+				P = len(keys)
+			}
+			step()
+			if t.Len() != len(keys) {
+				return fmt.Sprintf("goroutine %d (own clone): Len=%d, own reference has %d keys", g, t.Len(), len(keys))
+			}
+			if i%97 == 0 || i == 1499 {
+				n := 0
+				prev, first, bad := 0, true, ""
+				t.Inorder(func(e Elem) bool {
+					if !keys[e.Key] || (!first && e.Key <= prev) {
+						bad = fmt.Sprintf("goroutine %d (own clone): Inorder yields %d which is absent or out of order", g, e.Key)
+						return false
+					}
+					prev, first = e.Key, false
+					n++
+					return true
+				})
+				if bad != "" {
+					return bad
+				}
+				if n != len(keys) {
+					return fmt.Sprintf("goroutine %d (own clone): Inorder yields %d keys, own reference has %d", g, n, len(keys))
+				}
+			}
+			if checkDepth && beta < 1000 && P > 0 && (i%16 == 0 || g%2 == 1) {
+				_, d := treeShape(t, identElem)
+				bound := math.Log(float64(P))/math.Log(2000.0/(1000.0+float64(beta))) + 1 + 1e-9
+				if float64(d) > bound {
+					return fmt.Sprintf("goroutine %d (own clone of a shared prototype, beta=%d): depth %d exceeds bound %.4f (P=%d, Len=%d)", g, beta, d, bound, P, len(keys))
+				}
+			}
+		}
+		return ""
+	})
 }
